@@ -212,6 +212,9 @@ func record(kind, out string) {
 	n := 500
 	if ev.Thorough() {
 		n = 6000
+		if kind == "mac" { // the integrity reference is ~3x more expensive per bit in TLC
+			n = 2500
+		}
 	}
 	var ops []string
 	if kind == "cipher" {
